@@ -1,4 +1,4 @@
-import Claripy.VSA.Join
+import Claripy.VSA.Meet
 /-! `add`, `sub`, `neg`, `bitwise_not`, the eight orderings, Warren's `min_or`/`max_or`, `bitwise_or/and/xor`. -/
 namespace Claripy.VSA
 
@@ -28,10 +28,6 @@ def SI.bitwiseNot (a : SI) : R SI := do
   let pieces ← a.ssplit
   let rs := pieces.map fun p => SI.new a.bits a.stride (-(p.lastMember : Int) - 1) (-(p.lb : Int) - 1)
   return (← leastUpperBound rs).renorm
-
-inductive BoolRes where
-  | t | f | m
-  deriving DecidableEq, Repr, Inhabited
 
 /-- combine the per-piece verdicts: all True → True, all False → False, otherwise Maybe -/
 def combine (l : List BoolRes) : BoolRes :=
